@@ -170,6 +170,16 @@ pub fn gen_forge(thorough: bool, rng: &mut Rng) -> Result<(), String> {
                     json!({"kind": "duplicate_predicate"}), false,
                     json!({"kind": "duplicate_predicate", "npred": 2, "def": name}), rng));
             }
+            // ---- (b5) a predicate on an attribute that the SAME sub-proof reveals: the equality proof has no response for a
+            //      revealed attribute, so the cheater adds one (eq_proof.m[attr] := mj) and proves the false predicate about a
+            //      made-up value; nothing in the verification equation involves that entry
+            {
+                let req = ReqSpec { revealed: vec!["age".to_string()], predicates: vec![falsy.clone()] };
+                let v = made_up(&falsy, rng);
+                emit(&case(format!("forge/{}/revealed_predicate", k), name, cd, sig.clone(), &hv, &req, 456,
+                    json!({"kind": "revealed_predicate", "pred_index": 0, "value": v, "m_tilde": draw(rng, 592)}), false,
+                    json!({"kind": "unlinked", "layout": "predicate on a revealed attribute, dummy response added", "npred": 1, "def": name}), rng));
+            }
             // ---- (b4) a hidden value split into a hidden part and an UNREQUESTED revealed entry: the parts recombine in the
             //      verification equation, only the comparison of the revealed set with the request refuses it
             for (si, attr) in ["master_secret", "age"].iter().enumerate() {
